@@ -76,6 +76,16 @@ pub struct Case {
     /// (time offset in units of 100 ms within the hostile phase, target mask, message)
     pub hostile: Vec<(u8, u8, Hostile)>,
     pub hostile_phase_s: u8,
+    /// `true`: all validators (the Byzantine one included) have equal stake, which for n <= 5 puts
+    /// the Byzantine stake at >= 20 % - outside the fault model, so only the no-panic / still-serving
+    /// clauses are judged. `false` (all generated cases): the Byzantine validator holds n-2 stake
+    /// units against 4 per correct validator (14..17 %).
+    #[serde(default)]
+    pub equal_stakes: bool,
+    /// Delay (ms) of shred traffic between correct nodes during the hostile phase (0 = the default
+    /// 20 ms); the recovery phase always runs on the timely 20 ms network.
+    #[serde(default)]
+    pub shred_delay_ms: u16,
 }
 
 pub struct C10;
@@ -89,8 +99,9 @@ impl Property for C10 {
         tier.pick(96, 3_000)
     }
     fn rule(&self) -> String {
-        "cases: 4..=6 validators (equal stakes), one Byzantine validator played by the harness, full nodes for the others \
-         over Rotor with 20 ms hops; for 4..10 virtual seconds up to 40 hostile messages are injected at generated times to \
+        "cases: 4..=6 validators, one Byzantine validator played by the harness holding n-2 stake units against 4 per \
+         correct validator (14..17 %), full nodes for the others over Rotor with 20 ms hops (in a quarter of the cases \
+         shreds between correct nodes take 21..400 ms during the hostile phase); for 4..10 virtual seconds up to 40 hostile messages are injected at generated times to \
          generated subsets: junk bytes on all five interfaces; validly signed votes for extreme / far-future slots; votes \
          with out-of-range signer; certificates with wrong mask length or extreme slots; blocks signed by the Byzantine \
          leader for its own (next, far-future or u64::MAX-adjacent) window that are well-formed or malformed (parent in the \
@@ -104,7 +115,7 @@ impl Property for C10 {
             .into()
     }
     fn assumptions(&self) -> Vec<String> {
-        vec!["one Byzantine validator out of >= 6 (16.7 %) or a silent one out of 4..5 (its stake then only matters for liveness thresholds: all others are live)".into()]
+        vec!["the keeps-finalising clause is judged only when the Byzantine stake is below 20 % (all generated cases); the regression case with a 20 % Byzantine validator is judged on the no-panic / no-storm / still-answering clauses only".into()]
     }
     fn strategy(&self, _tier: Tier) -> BoxedStrategy<Case> {
         let vk = prop_oneof![Just(VKind::Notar), Just(VKind::NotarFallback), Just(VKind::Skip), Just(VKind::SkipFallback), Just(VKind::Final)];
@@ -140,8 +151,9 @@ impl Property for C10 {
             1 => (0u8..4, slot).prop_map(|(kind, slot)| Hostile::RepairResponse { kind, slot }),
             2 => (1u8..40, prop_oneof![Just(600u16), Just(1400), Just(512), Just(513), 0u16..1490]).prop_map(|(count, len)| Hostile::Transactions { count, len }),
         ];
-        (4u8..=6, any::<u8>(), any::<u64>(), prop::collection::vec((0u8..100, any::<u8>(), hostile), 1..40), 4u8..10)
-            .prop_map(|(n, byz, seed, hostile, hostile_phase_s)| Case { n, byz, seed, hostile, hostile_phase_s })
+        let shred_delay = prop_oneof![3 => Just(0u16), 1 => 21u16..400];
+        (4u8..=6, any::<u8>(), any::<u64>(), prop::collection::vec((0u8..100, any::<u8>(), hostile), 1..40), 4u8..10, shred_delay)
+            .prop_map(|(n, byz, seed, hostile, hostile_phase_s, shred_delay_ms)| Case { n, byz, seed, hostile, hostile_phase_s, equal_stakes: false, shred_delay_ms })
             .boxed()
     }
     fn max_shrink_iters(&self) -> u32 {
@@ -156,7 +168,11 @@ impl Property for C10 {
                 seed: 3,
                 hostile: vec![(5, 255, Hostile::Vote { kind: VKind::Notar, slot: SlotPick::Current, block: 1 })],
                 hostile_phase_s: 4,
+                equal_stakes: true,
+                shred_delay_ms: 0,
             },
+            // known finding: Byzantine leader of the first window shows its slot-1 block to some nodes only
+            serde_json::from_str(include_str!("../../regress/C10-genesis-split.json")).expect("regression case parses"),
             // fixed defects: oversized transactions; block for the last window before u64::MAX; parent in the same slot
             Case {
                 n: 6,
@@ -169,6 +185,8 @@ impl Property for C10 {
                     (20, 255, Hostile::Block { slot: SlotPick::OwnWindow(1), malform: BlockMalform::ParentSameSlot, slices: 2 }),
                 ],
                 hostile_phase_s: 6,
+                equal_stakes: false,
+                shred_delay_ms: 0,
             },
         ]
     }
@@ -385,9 +403,18 @@ async fn run(case: &Case) -> Outcome {
     let mut out = Outcome::default();
     let n = case.n as usize;
     let byz = case.byz as usize % n;
-    let stakes = vec![1u64; n];
+    let mut stakes = vec![4u64; n];
+    if !case.equal_stakes {
+        stakes[byz] = n as u64 - 2;
+    }
+    let byz_below_20 = stakes[byz] * 5 < stakes.iter().sum::<u64>();
     let live: Vec<usize> = (0..n).filter(|i| *i != byz).collect();
     let switch = Switch::new(Box::new(|_f, _t, _i, _c| Some(20)));
+    if case.shred_delay_ms > 20 {
+        let d = case.shred_delay_ms as u64;
+        switch.set_policy(Box::new(move |_f, _t, i, _c| Some(if i == Iface::Disseminator { d } else { 20 })));
+        out.label("slow-shreds");
+    }
     let nodes: Vec<SimNode> = live.iter().map(|i| start_node(&switch, &stakes, *i, Diss::Rotor)).collect();
 
     let mut schedule: Vec<(u64, u8, &Hostile)> = case.hostile.iter().map(|(t, m, h)| ((*t as u64 % (case.hostile_phase_s as u64 * 10)) * 100, *m, h)).collect();
@@ -436,6 +463,7 @@ async fn run(case: &Case) -> Outcome {
         }
     }
     // --- recovery: the nodes must keep finalising and answering
+    switch.set_policy(Box::new(|_f, _t, _i, _c| Some(20)));
     if !out.failed() {
         let mut before = Vec::new();
         for nd in &nodes {
@@ -470,11 +498,26 @@ async fn run(case: &Case) -> Outcome {
         }
         if !out.failed() {
             out.checks += 1;
-            if !after.iter().zip(&before).all(|(a, b)| *a >= *b + 8) {
-                out.violate(
-                    "C10/node-stopped-finalising",
-                    format!("n={n} byzantine {byz}: finalized slots {before:?} at the end of the hostile phase, {after:?} after 12 more virtual seconds of clean traffic"),
-                );
+            if byz_below_20 && !after.iter().zip(&before).all(|(a, b)| *a >= *b + 8) {
+                let log = switch.take_consensus_log();
+                let from = after.iter().copied().min().unwrap_or(0) + 1;
+                let summary = crate::fixtures::nsim::summarize_consensus(&log, from, 8);
+                // root cause shared with the C02 finding: nothing is finalised yet and the correct
+                // nodes split between notarising and skipping the child of genesis, which can
+                // never become safe-to-notar because genesis has no certificate
+                let split = crate::fixtures::nsim::slot_split(&log, 1, byz);
+                if after.iter().all(|a| *a == 0) && split {
+                    let sig = "C10/node-stopped-finalising/split-vote-on-child-of-genesis";
+                    if crate::engine::is_known("C10", sig) {
+                        out.excluded_known += 1;
+                    }
+                    out.violate(sig, format!("n={n} byzantine {byz} (leader of the first window, {} of {} stake): no node finalised anything; votes/certificates for the first slots: {summary}", stakes[byz], stakes.iter().sum::<u64>()));
+                } else {
+                    out.violate(
+                        "C10/node-stopped-finalising",
+                        format!("n={n} byzantine {byz}: finalized slots {before:?} at the end of the hostile phase, {after:?} after 12 more virtual seconds of clean traffic; votes/certificates seen for the next slots: {summary}"),
+                    );
+                }
             }
         }
         // probe: a repair request from the (absent) Byzantine validator must still be answered
